@@ -3,6 +3,7 @@ module gopkg.in/src-d/hercules.v10/verifharness
 go 1.12
 
 require (
+	github.com/gogo/protobuf v1.3.0
 	github.com/sergi/go-diff v1.0.0
 	github.com/src-d/enry/v2 v2.1.0
 	gopkg.in/src-d/go-git.v4 v4.10.0
